@@ -82,6 +82,10 @@ def prop(case):
         flagged, acc = r["f.no_conv_" + k], r.get("f.no_conv_%s.precision" % k)
         if acc is not None and (flagged and not acc > prec or not flagged and acc != 0.0):
             return Fail("non-convergence record inconsistent with its flag", which=k, flagged=flagged, achieved=acc, goal=prec)
+    # the summary the program acts on (have_warning / get_warnings) must agree with the two records
+    if bool(r.get("f.have_warning")) != bool(warn) or bool(r.get("f.warnings")) != bool(warn):
+        return Fail("have_warning()/get_warnings() disagree with the non-convergence records", have_warning=r.get("f.have_warning"),
+                    no_conv_Mu=r["f.no_conv_Mu"], no_conv_me2=r["f.no_conv_me2"], warnings=r.get("f.warnings"))
     if warn:
         label("warned:" + ("Mu" if r["f.no_conv_Mu"] else "") + ("+me2" if r["f.no_conv_me2"] else ""))
         discard("non-convergence-warning")
